@@ -46,7 +46,20 @@ def recon2(r):
     return fd.recon2(r)
 
 
-def run_rhs2(nx, ny, dx, dy, data, recon, bc, flux):
+def prime_2d(nx, ny, dx, dy, recon, bc):
+    """history: the (pooled) reconstruction object first serves a mesh with the same nx, ny and other cell sizes"""
+    try:
+        sib = fd.mesh2d.mesh2d(nx, ny, nx * dx * 2.0, ny * dy * 0.5)
+        model = O.TableModel(Flux2(seed=1))
+        disc = fd.modeldisc.fvm2dcart(model, sib, recon2(recon), bclist={t: O.bc_dict(bc[t]) for t in TAGS})
+        disc.rhs(fd.field.fdata(model, sib, [np.linspace(-1.0, 2.0, nx * ny)]))
+    except Exception:
+        pass
+
+
+def run_rhs2(nx, ny, dx, dy, data, recon, bc, flux, prime=True):
+    if prime:
+        prime_2d(nx, ny, dx, dy, recon, bc)
     m = fd.mesh2d.mesh2d(nx, ny, nx * dx, ny * dy)
     model = O.TableModel(flux)
     try:
